@@ -118,7 +118,12 @@ func unknownFailures(prop string, obs []Obligation) int {
 	for _, o := range obs {
 		if o.Status == "fail" {
 			if _, ok := known[prop+" "+o.Rule+" "+o.Construct]; !ok {
-				n++
+				n += 2
+				if o.Construct == "vacuity" {
+					// lost anchors say less than a decided obligation: among equally many failures the pass
+					// that still recognises its anchors gives the better report
+					n++
+				}
 			}
 		}
 	}
